@@ -10,6 +10,9 @@ CLAIMED = {
  'C01': ('property-based differential testing: exhaustive length enumeration + proptest-generated messages and threaded histories against an independent streaming SM3; OpenSSL golden corpus; libFuzzer differential target in the thorough tier',
          'Generated-input search with an independent reference as oracle: every length 0..=4096 in four content classes, all single-bit 192-byte messages, boundary-biased random messages, interleaved two-thread histories (purity) and a 2^29+3-byte message (bit length beyond 32 bits) are hashed by the library and compared byte for byte with a from-the-standard SM3. Exploration, not proof: it decides the property on what was generated.',
          'Trusted: harness/src/refimpl/sm3.rs (anchored on the GB/T 32905 Annex vectors and 309 OpenSSL digests). Not reached: messages beyond 2^32+1 bytes.', '5/C01'),
+ 'C02': ('property-based differential and round-trip testing: exhaustive structured (key, block) families, S-box-lane-targeted and inverted-key-schedule constructions, proptest random pairs and stateful call histories against an independent SM4; OpenSSL golden corpus',
+         'Generated-input search with an independent reference as oracle, both directions plus both round trips on every case: 128x128 single-bit and 256x256 repeated-byte (key, block) pairs exhaustively, every S-box input value through every lane of round 1 (data path and key schedule), keys built by inverting the key schedule from structured final round keys, 2*10^5 (thorough 4*10^6) proptest pairs, and call histories on one cipher object compared step by step with a fresh object, the reference and its own clone.',
+         'Trusted: harness/src/refimpl/sm4.rs (S-box generated algebraically and checked bijective, CK from its formula; anchored on GB/T 32907 examples 1 and 2 and 256 OpenSSL ECB triples).', '5/C02'),
 }
 PENDING_REASON = 'check not implemented yet in this commit (work in progress; planned in DESIGN.md section 5) — not claimed until its machinery exists and is silent on the unchanged tree'
 
